@@ -1,10 +1,123 @@
 import StepupModel.Proto
-/-! Driver requests of C19 (`c19 <op> ...`). -/
-open StepupModel StepupModel.Proto
+import StepupModel.P.Report
+import StepupModel.P.Pending
+/-! Driver requests of C19 (`c19 <op> ...`).
+
+* `c19 rc <threshold> <draining> <missingTargets> <missingDirs> <globWarnings> <globErrors> <steps>`
+  with steps `STATE:NEED:detached,...`: `finalize.report_unbuilt` -> `<number> <messages>`.
+* `c19 serve <invalid> <number-free flags f w p d>`: `director.serve`'s exit status.
+* `c19 pend <steps> <fileBlock> <dead> <producers> <unsafeAnc> <resBlock> <fileRoots> <resRoots>`:
+  the attribution of `_analyze_pending` from its base relations.
+-/
+open StepupModel StepupModel.Proto StepupModel.K
 
 namespace StepupModel.Drv.C19
+open StepupModel.P.Report StepupModel.P.Pending StepupModel.Generated.Report
+
+def parseState : String → Option StepState
+  | "PENDING" => some .pending | "RUNNING" => some .running | "SUCCEEDED" => some .succeeded
+  | "FAILED" => some .failed | "CHECKING" => some .checking | _ => none
+
+def parseNeed : String → Option Need
+  | "OPTIONAL" => some .optional | "DEFAULT" => some .default | "TARGET" => some .target
+  | "PLAN" => some .plan | _ => none
+
+def parseBool : String → Option Bool
+  | "0" => some false | "1" => some true | _ => none
+
+def items (tok : String) : List String := if tok = "." then [] else tok.splitOn ","
+
+def parseRow (tok : String) : Option StepRow :=
+  match tok.splitOn ":" with
+  | [s, n, d] => do pure { state := ← parseState s, impliedNeed := ← parseNeed n, detached := ← parseBool d }
+  | _ => none
+
+def parsePStep (tok : String) : Option PStep :=
+  match tok.splitOn ":" with
+  | [i, l, u, d] => do pure { i := ← i.toNat?, label := ← unhex l, unsafe_ := ← parseBool u, deferred := ← parseBool d }
+  | _ => none
+
+def parsePair (tok : String) : Option (Nat × Nat) :=
+  match tok.splitOn ":" with
+  | [a, b] => do pure (← a.toNat?, ← b.toNat?)
+  | _ => none
+
+def parseDead (tok : String) : Option (Nat × String) :=
+  match tok.splitOn ":" with
+  | [a, b] => do pure (← a.toNat?, ← unhex b)
+  | _ => none
+
+def parseProducer (tok : String) : Option Producer :=
+  match tok.splitOn ":" with
+  | [f, s, l, x] => do pure { file := ← f.toNat?, step := ← s.toNat?, label := ← unhex l, failed := ← parseBool x }
+  | _ => none
+
+def parseAnc (tok : String) : Option UnsafeAnc :=
+  match tok.splitOn ":" with
+  | [d, a, l, x] => do pure { dst := ← d.toNat?, anc := ← a.toNat?, label := ← unhex l, failed := ← parseBool x }
+  | _ => none
+
+def parseRes (tok : String) : Option ResBlock :=
+  match tok.splitOn ":" with
+  | [s, r, n] => do pure { step := ← s.toNat?, rid := ← r.toNat?, name := ← unhex n }
+  | _ => none
+
+def natLt (a c : Nat) : Bool := a < c
+
+def optHex : Option String → String
+  | none => "~"
+  | some s => hex s
+
+def bucketStr (name : String) (bk : Nat × Option String) : String :=
+  s!"{name}:{bk.1}:{optHex bk.2}"
+
+def displayStr (d : Display) : String :=
+  let shown := sortBy (fun a c => natLt a.1 c.1) d.shown
+  (if shown.isEmpty then "." else ",".intercalate (shown.map fun p => s!"{p.1}:{p.2}")) ++
+    s!";{d.nhidden};{d.nhiddenBlocked}"
+
+def pendAnswer (b : Base) (fileRoots resRoots : List Nat) : String :=
+  let B := pendBlocker b.ids (cands b)
+  let blk := sortBy (fun a c => natLt a.dst c.dst) B
+  let blkStr := if blk.isEmpty then "." else ",".intercalate (blk.map fun x => s!"{x.dst}:{x.kind}:{x.src}")
+  match walk B with
+  | none => s!"blk={blkStr} att=HANG"
+  | some rows =>
+    let att := sortBy (fun a c => natLt a.i c.i) rows
+    let attStr := if att.isEmpty then "." else ",".intercalate (att.map fun w => s!"{w.i}:{w.rk}:{w.rid}")
+    let kinds := [rootFile, rootResource, rootFailed, rootDeferred, rootOther, rootRunnable]
+    let tot := ",".intercalate ((kinds.filter fun k => total rows k ≠ 0).map fun k => s!"{k}:{total rows k}")
+    let buckets := ";".intercalate
+      [bucketStr "failed" (bucket b rows rootFailed), bucketStr "cyclic" (cyclicBucket b rows),
+       bucketStr "deferred" (bucket b rows rootDeferred), bucketStr "other" (bucket b rows rootOther),
+       bucketStr "runnable" (bucket b rows rootRunnable)]
+    s!"blk={blkStr} att={attStr} tot={if tot.isEmpty then "." else tot} {buckets} " ++
+      s!"inputs={displayStr (rankDisplay b rows rootFile fileRoots)} " ++
+      s!"res={displayStr (rankDisplay b rows rootResource resRoots)}"
 
 def handle : List String → Option String
+  | ["rc", thr, dr, mt, md, gw, ge, steps] => do
+    let rows ← (items steps).mapM parseRow
+    let inp : Input := { steps := rows, threshold := ← parseNeed thr, draining := ← parseBool dr,
+                         missingTargets := ← mt.toNat?, missingDirs := ← md.toNat?,
+                         globWarnings := ← gw.toNat?, globErrors := ← ge.toNat? }
+    let (f, msgs) := reportUnbuilt inp
+    pure s!"{f.toNat} {if msgs.isEmpty then "-" else ",".intercalate (msgs.map Msg.str)}"
+  | ["serve", inv, f, w, p, d] => do
+    let fl : Flags := { failed := ← parseBool f, warning := ← parseBool w, pending := ← parseBool p,
+                        drained := ← parseBool d }
+    pure s!"{(serveReturnCode (← parseBool inv) fl).toNat}"
+  | ["cleanup", t, f, w, p, d, c] => do
+    let fl : Flags := { failed := ← parseBool f, warning := ← parseBool w, pending := ← parseBool p,
+                        drained := ← parseBool d }
+    pure (boolStr (cleanupRuns (← parseBool t) fl (← parseBool c)))
+  | ["pend", steps, fb, dead, prods, ancs, res, froots, rroots] => do
+    let b : Base := { steps := ← (items steps).mapM parsePStep, fileBlock := ← (items fb).mapM parsePair,
+                      dead := ← (items dead).mapM parseDead, producers := ← (items prods).mapM parseProducer,
+                      unsafeAnc := ← (items ancs).mapM parseAnc, resBlock := ← (items res).mapM parseRes }
+    let fr ← (items froots).mapM String.toNat?
+    let rr ← (items rroots).mapM String.toNat?
+    pure (pendAnswer b fr rr)
   | _ => none
 
 end StepupModel.Drv.C19
